@@ -323,6 +323,8 @@ def check_cases(ctx, cases):
             c = model.Content.from_data(data)
             routes = {"model.Content.from_data": as_dict(c), "SkippedContent.from_data": as_dict(model.SkippedContent.from_data(data, reason="r"))}
             routes["hashes()"] = dict({k: v.hex() for k, v in c.hashes().items()}, length=n)
+            if str(c.swhid()) != "swh:1:cnt:" + w4["sha1_git"] or c.unique_key() != bytes.fromhex(w4["sha1"]):
+                ctx.fail(case, "model.Content.swhid() / unique_key() do not carry the git blob id / sha1", "route-differs:model.swhid")
             dc = from_disk.Content.from_bytes(mode=0o100644, data=data)
             routes["from_disk.from_bytes"] = {k: (dc.data[k].hex() if k != "length" else dc.data[k]) for k in w4}
             df = from_disk.Content.from_file(path=path.encode())
